@@ -17,6 +17,32 @@ CHECKS = {
             'harness (differential testing, bounded by its generators); CPython set/dict/weakref semantics '
             'are modelled, not verified.  Single lineage of __events__ in class hierarchies.',
             '§5 C03'),
+    'C04': ('correspondence',
+            'Lean 4 theorems: history invariant enqueued = released ++ queue over all re-entrant runs '
+            '(induction on fuel + per-step invariant), release drains or stops; tied to events.py by '
+            'correspondence with fault injection at every delivery position',
+            'Theorems in lean/DesperProofs/Props/C04.lean about the dispatcher model (Disp.lean): never twice / '
+            'in order / nothing lost for every history with raising and re-disabling callbacks, the release '
+            'loop pops before it delivers, returns only with an empty queue or a disabled dispatcher, and the '
+            'fault-free release delivers in order exactly once per listener.  Every run rebuilds and audits '
+            'them and runs model and real EventDispatcher on generated interleavings with a raise / nested '
+            'disable injected at each delivery position.',
+            'Trusted: Lean kernel; reading of the statement; correspondence harness (bounded by generators); '
+            'termination is proved as "each iteration removes the head" + fuel for user callbacks.',
+            '§5 C04'),
+    'C10': ('correspondence',
+            'Lean 4 theorems: liveness invariant of the weak tables over all re-entrant runs, dead objects '
+            'are never called (per-step invariant over the reachability relation); tied to events.py by '
+            'correspondence with drops at every callback position + weakref/gc observation',
+            'Theorems in lean/DesperProofs/Props/C10.lean: the tables mention live objects only, dropping the '
+            'last reference unregisters, a dead object is never called again along any continuation, no '
+            'callback has receiver None.  Correspondence drops references between operations and inside '
+            'callbacks under permuted listener orders; the harness checks with weakref + gc.collect() that '
+            'nothing keeps a dropped handler alive.',
+            'Partial: that CPython frees an object when its last reference goes (refcounting) is runtime '
+            'behaviour, assumed by the theorems and observed on the implementation.  Trusted: Lean kernel, '
+            'reading of the statement, correspondence harness.',
+            '§5 C10'),
 }
 
 NOT_YET = 'check not built yet (work in progress; see DESIGN.md §5 for the plan)'
